@@ -28,6 +28,9 @@ func init() {
 			ruleNilArgs(w, r, "R15.8")
 			ruleDeferredAddTotal(w, r, "R15.9")
 		})
+	register("C16",
+		"Structural necessary conditions of the middleware protocol, decided per integration on the per-request function's control-flow graph and then compared across the five siblings: one CreateScope(request context) on the captured provider; creation error -> error handler, return; a close guarantee in force before any user callback (deferred Close; fiber: Locals + explicit Close + fasthttp lemma checked in the fasthttp source); scope.Context() attached before middlewares/next and flowing on; middlewares in slice order with that scope, error -> error handler, return, next unreachable; next exactly once on the normal path; Handle: recover only under cfg.PanicRecovery, scope from the request, matching error handler on each failure edge, method dominated by both successes and given the resolved controller. ISO: no mutable resolution state shared between requests (record confinement). NOT decided: status codes, behaviour of the frameworks beyond the lemma.",
+		commonAssumptions, checkC16)
 	register("C20",
 		"Structural necessary conditions of 'modules are transparent groupings of registration calls': NewModule and AddModules apply the builders they were given in order, skip nil, stop at the first error (wrapped exactly once per level with the module's own name / unwrapped), never write to the caller's slice; the five module options are thin wrappers around the collection method of the same name; ModuleError unwraps. Transparency follows from thinness. NOT decided: provider-level indistinguishability as observed behaviour.",
 		commonAssumptions, checkC20)
